@@ -314,7 +314,7 @@ PROPS['C14'] = dict(
 )
 PROPS['C15'] = dict(
     lean_targets=['AnonModel.Props.C15', 'AnonModel.Props.C15Req', 'AnonModel.Props.C15Bn', 'AnonModel.Props.C15B64', 'AnonModel.Props.C15Pv', 'AnonModel.Props.C15Mp', 'AnonModel.Props.GenConstsC15'],
-    required_theorems=['C15_base_header_unchanged', 'C15_codec_sources_unchanged', 'C15_mp_decode_encode', 'C15_mp_prefix_free', 'C15_mp_injective', 'C15_mp_sequence', 'C15_mp_trailing_ignored', 'C15_mp_reader_accepts_wide_forms', 'C15_mp_struct_members', 'C15_mp_reader_output_wf', 'C15_mp_reread', 'C15_mp_bound_irrelevant', 'C15_mp_reads_prefix', 'C15_mp_count_bounded', 'C15_pv_typed', 'C15_pv_typed_text', 'C15_pv_chain', 'C15_pv_chain_injective', 'C15_pv_untag_shape', 'C15_pv_de_ser', 'C15_pv_ser_de', 'C15_pv_extra_refused', 'C15_pv_kind_mismatch_refused', 'C15_b64_decode_encode', 'C15_b64_encode_decode', 'C15_b64_decode_injective', 'C15_b64_rejects_foreign_symbol', 'C15_b64_length', 'C15_envelope_decode_encode', 'C15_envelope_encode_decode', 'C15_envelope_header_required', 'C15_bn_binary_hop', 'C15_bn_binary_hop_partial', 'C15_bn_binary_full_claim_refuted', 'C15_req_de_ser', 'C15_req_ser_de', 'C15_req_ser_de_any', 'C15_req_empty_interval_kept', 'C15_req_restrictions_kept', 'C15_req_missing_vs_null', 'C15_req_ver',
+    required_theorems=['C15_base_header_unchanged', 'C15_codec_sources_unchanged', 'C15_mp_decode_encode', 'C15_mp_prefix_free', 'C15_mp_injective', 'C15_mp_sequence', 'C15_mp_trailing_ignored', 'C15_mp_reader_accepts_wide_forms', 'C15_mp_struct_members', 'C15_mp_reader_output_wf', 'C15_mp_reread', 'C15_mp_bound_irrelevant', 'C15_mp_decode_complete', 'C15_mp_reads_prefix', 'C15_mp_count_bounded', 'C15_pv_typed', 'C15_pv_typed_text', 'C15_pv_chain', 'C15_pv_chain_injective', 'C15_pv_untag_shape', 'C15_pv_de_ser', 'C15_pv_ser_de', 'C15_pv_extra_refused', 'C15_pv_kind_mismatch_refused', 'C15_b64_decode_encode', 'C15_b64_encode_decode', 'C15_b64_decode_injective', 'C15_b64_rejects_foreign_symbol', 'C15_b64_length', 'C15_envelope_decode_encode', 'C15_envelope_encode_decode', 'C15_envelope_header_required', 'C15_bn_binary_hop', 'C15_bn_binary_hop_partial', 'C15_bn_binary_full_claim_refuted', 'C15_req_de_ser', 'C15_req_ser_de', 'C15_req_ser_de_any', 'C15_req_empty_interval_kept', 'C15_req_restrictions_kept', 'C15_req_missing_vs_null', 'C15_req_ver',
                        'C15_nonce_ser_de', 'C15_nonce_string_kept', 'C15_nonce_rejects', 'C15_revlist_de_ser', 'C15_revlist_ser_de', 'C15_ver_roundtrip',
                        'C15_missing_ver_is_v1', 'C15_attrval_de_ser', 'C15_attrval_ser_de', 'C15_attrval_rejects'],
     families=[dict(name='c15')], default_dir='exact', spec_is_model=['c15'],
